@@ -437,7 +437,9 @@ def _run_alg(cfg, data, cap, with_cb, tl, D):
             core = rng.standard_normal(ranks) if alg == "tucker" else rng.random_sample(ranks) + 0.1
             fs = []
             for s, r in zip(cfg["shape"], ranks):
-                if alg == "tucker":
+                if alg == "tucker" and cfg.get("init_kind") == "raw":
+                    fs.append(rng.standard_normal((s, r)))              # NOT orthonormal: HOOI must orthonormalise every mode itself
+                elif alg == "tucker":
                     fs.append(np.linalg.qr(rng.standard_normal((s, r)))[0] if s >= r else rng.standard_normal((s, r)))
                 else:
                     fs.append(rng.random_sample((s, r)) + 0.1)
@@ -843,7 +845,8 @@ def _cfg_for_spec(cfg):
     nn = cfg.get("nn_modes")
     if cfg["alg"] == "constrained_parafac":
         v = cfg.get("constraints", {"non_negative": True}).get("non_negative")
-        nn = "all" if v is True else (sorted(int(k) for k in v) if isinstance(v, dict) else None)
+        nn = "all" if v is True else (sorted(int(k) for k in v if v[k]) if isinstance(v, dict)
+                                      else [m for m, b in enumerate(v) if b] if isinstance(v, (list, tuple)) else None)
     if cfg["alg"] == "nn_parafac_hals" and "nn_modes" not in cfg:
         nn = "all"
     nn_kind = "none" if nn is None else ("all" if nn == "all" else "list")
@@ -859,6 +862,7 @@ def _cfg_for_spec(cfg):
             "mask": bool(cfg.get("mask")), "nn_kind": nn_kind, "nn_list": list(nn) if nn_kind == "list" else [],
             "algorithm": cfg.get("algorithm", "none"), "stagn": bool(cfg.get("max_stagnation", 20)) if cfg["alg"] == "rand_parafac" else False,
             "rows": list(cfg.get("rows", [])), "tenalg": cfg.get("tenalg", "core"), "single": cfg.get("data_dtype") == "float32",
+            "raw_init": bool(cfg.get("raw_init", False)),
             "sampled": bool(cfg.get("sampled", False)), "init_weights": cfg.get("init_weights", "none"),
             # a penalised fit (ridge, l1 sparsity) minimises another objective than the reconstruction error
             "penalised": bool(cfg.get("l2_reg") or cfg.get("core_sparsity") or any(x for x in (cfg.get("sparsity_coefficients") or []) if x))}
@@ -884,6 +888,14 @@ def nonneg_extra_configs(tier, seed):
         for shp, fx in (([4, 5, 3], [0]), ([4, 5, 3], [1]), ([3, 4, 2, 3], [0, 1]), ([3, 4, 2, 3], [2, 0])):
             add(alg, shape=shp, rank=2, data=str(rng.choice(["signed", "generic", "nonneg"])), init="user", init_kind="nonneg", tol="tiny", fixed=fx,
                 caps=[0, 1, 2, 5], **kw)
+    # per-mode specifications in every form, with and without mode 0, list and dict; PARAFAC2 with nn_modes="all"
+    for spec in ({1: True, 2: True}, {2: True}, {1: True}, [False, True, True], [True, False, True], {0: True, 1: True}):
+        for init in ("svd", "random"):
+            add("constrained_parafac", shape=[4, 5, 3], rank=2, data=str(rng.choice(["signed", "generic", "negative"])), init=init, tol="zero",
+                constraints={"non_negative": spec}, inner=int(rng.choice([1, 3, 10])), caps=[0, 1, 2, 5])
+    for init in ("svd", "random"):
+        for data in ("generic", "nonneg"):
+            add("parafac2", shape=[3, 0, 4], rows=[4, 5, 4], rank=2, data=data, init=init, tol="tiny", nn_modes="all", caps=[0, 1, 2, 5])
     for alg in ("nn_tucker", "nn_tucker_hals"):
         for data in ("sparse", "integer"):
             add(alg, shape=[4, 5, 3], rank=[2, 2, 2], data=data, init=str(rng.choice(["svd", "random"])), tol="zero",
@@ -1029,6 +1041,10 @@ def driver_configs(tier, seed, algs=None):
                         caps=[0, 1, 2, 3, 5, 8])
             base.update(kw)
             add(alg, **base)
+    # ---- HOOI from a user start whose factors are not orthonormal, some modes kept at full rank
+    for rk in ([4, 2, 2], [2, 5, 3], [4, 5, 3], [2, 2, 2]):
+        add("tucker", shape=[4, 5, 3], rank=rk, data=str(rng.choice(["generic", "lowrank"])), init="user", init_kind="raw", tol="zero", raw_init=True,
+            caps=[0, 1, 2, 3, 5, 8])
     # ---- fixed modes x normalisation x user start whose fixed factor is NOT normalised (the sweep must keep using the
     #      factors as they are after every normalisation, fixed ones included)
     for alg, kw in (("nn_parafac_hals", {"data": "nonneg", "init_kind": "nonneg"}), ("parafac", {"data": "generic"}),
